@@ -632,6 +632,12 @@ class _Gen:
             items.append(impl)
             exports.append((impl.name, cu, 'class'))
             visible.append((impl.name, cu))
+            if r.random() < .5:
+                # an interface that carries a declaration of its own (a marker interface it provides), by decorator and by call
+                items.append(Item(kind='raw', text=(
+                    f'from zope.interface import classImplements as _classImplements\nclass IMarker{iu}(Interface):\n    "marker"\n'
+                    f'@implementer(IMarker{iu})\nclass IDeclared{iu}(Interface):\n    "an interface with a declaration of its own"\n'
+                    f'class ILate{iu}(Interface):\n    "declared by a call"\n_classImplements(ILate{iu}, IMarker{iu})')))
         if f.zope and r.random() < .3:
             # interfaces made by *calling* an interface factory (a project subclass of InterfaceClass), each with its own implementer
             zu = self.new_uid()
